@@ -6,7 +6,7 @@ WT=${2:-/tmp/seed/wt-$ID}
 OUT=${3:-${SEEDOUT:-/tmp/seed/out}/$ID}
 export GOFLAGS= GOPROXY=off GOSUMDB=off GOTOOLCHAIN=local
 cd $WT || exit 2
-git stash -q 2>/dev/null; git checkout -q -- . ; git stash drop -q 2>/dev/null
+git checkout -q -- .   # (no git stash here: the stash is shared between all worktrees of the repository)
 git apply $OUT/patch.diff || { echo "patch does not apply"; exit 2; }
 echo "== build+tests with the change"
 (cd $WT && go build ./... && go test -count=1 ./... 2>&1 | grep -v 'no test files' | tail -5) ; (cd $WT/cmd/hranoprovod-cli && go build ./... && go test -count=1 ./... 2>&1 | grep -v 'no test files' | tail -12)
